@@ -10,7 +10,7 @@ use tower_lsp::jsonrpc::Result;
 use tower_lsp::lsp_types::*;
 use tower_lsp::{Client, LanguageServer};
 
-use crate::frontend::ast::{Declaration, Program, Span, Type};
+use crate::frontend::ast::{Declaration, ImportDecl, ImportKind, Program, Span, Type};
 use crate::frontend::module::resolve_import_path;
 use crate::frontend::{lexer, parser, typechecker};
 use crate::lsp::diagnostics::{compile_error_to_diagnostic, position_to_offset, span_to_range};
@@ -146,19 +146,20 @@ impl IncanLanguageServer {
         let mut result: Vec<(String, Program)> = Vec::new();
         let mut entry_diags: Vec<Diagnostic> = Vec::new();
         let mut seen: HashSet<PathBuf> = HashSet::new();
-        let mut stack: Vec<(PathBuf, PathBuf, Span)> = Vec::new(); // (module_path, base_dir_for_that_module, import_span_in_entry)
+        // (module_path, base_dir_for_that_module, import_span_in_entry, module_name)
+        let mut stack: Vec<(PathBuf, PathBuf, Span, String)> = Vec::new();
 
         // Seed stack with direct imports from the entry AST
         for decl in &ast.declarations {
             if let Declaration::Import(import) = &decl.node {
                 if let Some(dep_path) = resolve_import_path(&entry_base, import) {
                     let base = dep_path.parent().unwrap_or(&entry_base).to_path_buf();
-                    stack.push((dep_path, base, decl.span));
+                    stack.push((dep_path, base, decl.span, dependency_module_name(import)));
                 }
             }
         }
 
-        while let Some((path, base_dir, import_span)) = stack.pop() {
+        while let Some((path, base_dir, import_span, module_name)) = stack.pop() {
             let canonical = path.canonicalize().unwrap_or(path.clone());
             if !seen.insert(canonical.clone()) {
                 continue;
@@ -251,16 +252,11 @@ impl IncanLanguageServer {
                 if let Declaration::Import(import) = &decl.node {
                     if let Some(nested_path) = resolve_import_path(&base_dir, import) {
                         let nested_base = nested_path.parent().unwrap_or(&base_dir).to_path_buf();
-                        stack.push((nested_path, nested_base, Span::default()));
+                        stack.push((nested_path, nested_base, Span::default(), dependency_module_name(import)));
                     }
                 }
             }
 
-            let module_name = canonical
-                .file_stem()
-                .and_then(|s| s.to_str())
-                .unwrap_or("module")
-                .to_string();
             result.push((module_name, dep_ast));
         }
 
@@ -393,6 +389,18 @@ impl IncanLanguageServer {
             }
         }
         None
+    }
+}
+
+/// Name under which the typechecker looks a dependency's exports up: the import's module path joined with `_`
+/// (the CLI's `collect_modules` uses the same name), not the file stem (`a/b.incn` and `a/mod.incn` would
+/// otherwise be registered as `b` and `mod`).
+fn dependency_module_name(import: &ImportDecl) -> String {
+    match &import.kind {
+        ImportKind::From { module, .. } => module.segments.join("_"),
+        ImportKind::Module(p) if p.segments.len() > 1 => p.segments[..p.segments.len() - 1].join("_"),
+        ImportKind::Module(p) => p.segments.join("_"),
+        _ => "module".to_string(),
     }
 }
 
